@@ -157,4 +157,293 @@ func c11(r *core.Run) {
 			}
 		})
 	}
+
+	// ---- D2: method families ----
+	families := []string{"commonConn", "statement", "txSession"}
+	r.Check("D2/K9/strict-and-rows-agree-with-name", "every Query…Ctx method scans with unmarshalRows iff its name says Rows, strict=false iff its name says Partial, into its own destination", func(o *core.O) {
+		n := 0
+		for _, typ := range families {
+			for _, m := range p.Methods(sqlx, typ) {
+				name := m.Name()
+				if !strings.HasPrefix(name, "Query") || !strings.HasSuffix(name, "Ctx") {
+					continue
+				}
+				r.Fn(core.FuncName(m))
+				var calls []ssa.CallInstruction
+				for _, f := range core.WithAnon(m) {
+					calls = append(calls, core.Calls(f, core.CallTo("lib/store/sqlx.unmarshalRow", "lib/store/sqlx.unmarshalRows"))...)
+				}
+				if len(calls) != 1 {
+					o.Fail(p.Pos(m.Pos()), "%s: expected exactly one row-mapper call, found %d", core.FuncName(m), len(calls))
+					continue
+				}
+				n++
+				c := calls[0]
+				callee := core.Short(core.CalleeName(c))
+				wantRows := strings.Contains(name, "Rows")
+				if wantRows != strings.HasSuffix(callee, "unmarshalRows") {
+					o.Fail(p.InstrPos(c), "%s scans with %s", core.FuncName(m), callee)
+				}
+				args := core.Args(c)
+				strict := core.Describe(args[2])
+				wantStrict := "const:true"
+				if strings.Contains(name, "Partial") {
+					wantStrict = "const:false"
+				}
+				if strict != wantStrict {
+					o.Fail(p.InstrPos(c), "%s passes strict=%s, its name requires %s", core.FuncName(m), strict, wantStrict)
+				}
+				if !core.DependsOn(args[0], core.IsFreeVar("v")) && !core.DependsOn(args[0], core.IsParam("v")) {
+					o.Fail(p.InstrPos(c), "%s does not scan into its destination argument", core.FuncName(m))
+				}
+				if _, ok := core.Strip(args[1]).(*ssa.Parameter); !ok {
+					o.Fail(p.InstrPos(c), "%s does not scan the rows it was handed", core.FuncName(m))
+				}
+			}
+		}
+		o.Site(n)
+		if n < 12 {
+			o.Fail("lib/store/sqlx", "only %d query methods found (12 confirmed on the pinned tree)", n)
+		}
+	})
+	r.Check("D2/K9/context-free-twins", "every context-free session method delegates to its …Ctx twin with context.Background() and its parameters in order, returning its results", func(o *core.O) {
+		n := 0
+		for _, typ := range families {
+			ms := p.Methods(sqlx, typ)
+			byName := map[string]*ssa.Function{}
+			for _, m := range ms {
+				byName[m.Name()] = m
+			}
+			for _, m := range ms {
+				twin := byName[m.Name()+"Ctx"]
+				if twin == nil {
+					continue
+				}
+				n++
+				r.Fn(core.FuncName(m))
+				checkTwin(o, p, m, twin)
+			}
+		}
+		o.Site(n)
+		if n < 18 {
+			o.Fail("lib/store/sqlx", "only %d twin pairs found (18 confirmed on the pinned tree)", n)
+		}
+	})
+	r.Check("D2/K2/transact-under-breaker", "TransactCtx runs the transaction inside brk.DoWithAcceptable(…, db.acceptable), passes the caller's body through and returns the breaker's error", func(o *core.O) {
+		f := p.Func(sqlx, "commonConn", "TransactCtx")
+		if !o.Need(f != nil, "sqlx.commonConn.TransactCtx") {
+			return
+		}
+		r.Fn(core.FuncName(f))
+		brk := core.Calls(f, core.CallMethod("breaker.Breaker", "DoWithAcceptable"))
+		o.Site(len(brk), core.FuncName(f))
+		if len(brk) != 1 {
+			o.Fail(p.Pos(f.Pos()), "expected one DoWithAcceptable call, found %d", len(brk))
+			return
+		}
+		args := core.Args(brk[0])
+		acc := p.Func(sqlx, "commonConn", "acceptable")
+		if mc, ok := core.Strip(args[2]).(*ssa.MakeClosure); !ok || acc == nil || mc.Fn.(*ssa.Function).Object() != acc.Object() {
+			o.Fail(p.InstrPos(brk[0]), "the acceptable predicate is %s, expected db.acceptable", core.Describe(args[2]))
+		}
+		mc, ok := core.Strip(args[1]).(*ssa.MakeClosure)
+		if !ok {
+			o.Fail(p.InstrPos(brk[0]), "the protected function is not a closure")
+			return
+		}
+		body := mc.Fn.(*ssa.Function)
+		tc := core.Calls(body, core.CallTo("lib/store/sqlx.transact", "lib/store/sqlx.transactOnConn"))
+		if len(tc) == 0 {
+			o.Fail(p.Pos(body.Pos()), "the protected closure does not run the transaction")
+		}
+		for _, c := range tc {
+			a := core.Args(c)
+			if !core.IsFreeVar("fn")(a[len(a)-1]) {
+				o.Fail(p.InstrPos(c), "the caller's transaction body is not passed through")
+			}
+			for _, ret := range core.Returns(body) {
+				if !core.IsResult(core.Result(ret, 0), 0, core.Is(c)) {
+					o.Fail(p.InstrPos(ret), "the transaction's error is not returned to the breaker")
+				}
+			}
+		}
+		for _, ret := range core.Returns(f) {
+			if !core.DependsOn(ret.Results[0], func(v ssa.Value) bool { return core.IsResult(v, 0, core.Is(brk[0])) }) &&
+				!core.IsResult(core.Result(ret, 0), 0, core.Is(brk[0])) {
+				o.Fail(p.InstrPos(ret), "TransactCtx does not return the breaker's result")
+			}
+		}
+		// transact hands the same body to transactOnConn
+		t := p.Func(sqlx, "", "transact")
+		if o.Need(t != nil, "sqlx.transact") {
+			r.Fn(core.FuncName(t))
+			for _, c := range core.Calls(t, core.CallTo("lib/store/sqlx.transactOnConn")) {
+				o.Site(1)
+				a := core.Args(c)
+				if !core.IsParam("fn")(a[len(a)-1]) {
+					o.Fail(p.InstrPos(c), "transact does not pass the body through")
+				}
+			}
+		}
+	})
+
+	// ---- D3: row mapper guards ----
+	r.Check("D3/K2/not-found-iff-empty", "unmarshalRow returns ErrNotFound only when Next() is false and Err() is nil, and never scans in that case", func(o *core.O) {
+		f := p.Func(sqlx, "", "unmarshalRow")
+		if !o.Need(f != nil, "sqlx.unmarshalRow") {
+			return
+		}
+		r.Fn(core.FuncName(f))
+		isNext := core.CallMethod("sqlx.rowsScanner", "Next")
+		isErr := core.CallMethod("sqlx.rowsScanner", "Err")
+		isScan := core.CallMethod("sqlx.rowsScanner", "Scan")
+		retNF := func(in ssa.Instruction) bool {
+			ret, ok := in.(*ssa.Return)
+			return ok && core.IsGlobal(sqlx, "ErrNotFound")(core.Result(ret, 0))
+		}
+		nf := core.Instrs(f, retNF)
+		o.Site(len(nf), core.FuncName(f))
+		if len(nf) == 0 {
+			o.Fail(p.Pos(f.Pos()), "unmarshalRow never returns ErrNotFound")
+			return
+		}
+		hasNext := core.BoolVal(func(v ssa.Value) bool { return core.IsResult(v, 0, isNext) })
+		if w := core.Requires(f, retNF, core.Not(hasNext)); w != nil {
+			o.Fail(p.InstrPos(w), "ErrNotFound returned although Next() reported a row")
+		}
+		if w := core.Requires(f, retNF, core.ErrNil(0, isErr)); w != nil {
+			o.Fail(p.InstrPos(w), "ErrNotFound returned although Err() reported an iteration error (or Err() is not consulted)")
+		}
+		_, empty := core.EdgesOf(f, hasNext)
+		if w := core.ReachableFromEdges(empty, isScan, nil); w != nil {
+			o.Fail(p.InstrPos(w), "Scan reachable although Next() was false")
+		}
+		var from []core.At
+		for _, e := range empty {
+			from = append(from, core.Head(e.To))
+		}
+		core.Reach(core.Q{From: from, Target: func(in ssa.Instruction) bool {
+			if ret, ok := in.(*ssa.Return); ok {
+				v := core.Result(ret, 0)
+				if !core.IsGlobal(sqlx, "ErrNotFound")(v) && !core.IsResult(v, 0, isErr) {
+					o.Fail(p.InstrPos(in), "empty result returns %s instead of ErrNotFound / the iteration error", core.Describe(v))
+				}
+			}
+			return false
+		}})
+	})
+	r.Check("D3/K2/strict-column-count", "mapStructFieldsIntoSlice rejects len(columns) < len(fields) exactly in strict mode, before any mapping; tagged fields are looked up by column name", func(o *core.O) {
+		f := p.Func(sqlx, "", "mapStructFieldsIntoSlice")
+		if !o.Need(f != nil, "sqlx.mapStructFieldsIntoSlice") {
+			return
+		}
+		r.Fn(core.FuncName(f))
+		isFields := func(v ssa.Value) bool { return core.IsResult(v, 0, core.CallTo("lib/store/sqlx.unwrapFields")) }
+		fewer := core.Cmp(token.LSS, core.IsLenOf(core.IsParam("columns")), core.IsLenOf(isFields))
+		strict := core.BoolVal(core.IsParam("strict"))
+		retNM := func(in ssa.Instruction) bool {
+			ret, ok := in.(*ssa.Return)
+			return ok && core.IsGlobal(sqlx, "ErrNotMatchDestination")(core.Result(ret, 1))
+		}
+		rs := core.Instrs(f, retNM)
+		o.Site(len(rs)+core.EdgeCount(f, fewer), core.FuncName(f))
+		if len(rs) == 0 || core.EdgeCount(f, fewer) == 0 {
+			o.Fail(p.Pos(f.Pos()), "no rejection of len(columns) < len(fields) with ErrNotMatchDestination")
+			return
+		}
+		if w := core.Requires(f, retNM, strict); w != nil {
+			o.Fail(p.InstrPos(w), "ErrNotMatchDestination reachable in non-strict (Partial) mode")
+		}
+		if w := core.Requires(f, retNM, fewer); w != nil {
+			o.Fail(p.InstrPos(w), "ErrNotMatchDestination reachable although the result has enough columns")
+		}
+		// in strict mode with fewer columns nothing is mapped: from the edges where both hold only the error return is reachable
+		sh, _ := core.EdgesOf(f, strict)
+		fh, _ := core.EdgesOf(f, fewer)
+		_ = sh
+		isMapping := core.Or(core.CallTo("lib/store/sqlx.getTaggedFieldValueMap"), func(in ssa.Instruction) bool { _, ok := in.(*ssa.MakeSlice); return ok })
+		// the `fewer` edge is only taken after `strict` held (short-circuit) – require that some fewer-edge leads to nothing but the error
+		okEdge := false
+		for _, e := range fh {
+			if w := core.ReachableFromEdges([]core.Edge{e}, isMapping, nil); w == nil {
+				okEdge = true
+			}
+		}
+		if !okEdge {
+			o.Fail(p.Pos(f.Pos()), "mapping continues after the strict column-count test failed")
+		}
+		// the strict test precedes all mapping work
+		if w := core.Precedes(f, func(in ssa.Instruction) bool {
+			iff, ok := in.(*ssa.If)
+			if !ok {
+				return false
+			}
+			m, _ := strict(iff.Cond)
+			return m
+		}, isMapping); w != nil {
+			o.Fail(p.InstrPos(w), "mapping work starts before the strict column-count test")
+		}
+		// tagged lookup by column name
+		look := core.Instrs(f, func(in ssa.Instruction) bool {
+			l, ok := in.(*ssa.Lookup)
+			return ok && core.IsResult(l.X, 0, core.CallTo("lib/store/sqlx.getTaggedFieldValueMap"))
+		})
+		if len(look) == 0 {
+			o.Fail(p.Pos(f.Pos()), "tagged fields are not looked up in the tag map")
+		}
+		for _, l := range look {
+			if !core.DependsOn(l.(*ssa.Lookup).Index, core.IsParam("columns")) {
+				o.Fail(p.InstrPos(l), "tag map lookup key does not come from the column names")
+			}
+		}
+	})
+}
+
+// checkTwin decides that m is a pure delegation to twin: twin(recv, context.Background(), params in order).
+func checkTwin(o *core.O, p *core.Prog, m, twin *ssa.Function) {
+	isTwin := func(in ssa.Instruction) bool {
+		c := core.AsCall(in)
+		return c != nil && c.Common().StaticCallee() == twin
+	}
+	cs := core.Calls(m, isTwin)
+	if len(cs) != 1 {
+		o.Fail(p.Pos(m.Pos()), "%s does not delegate to %s exactly once (calls: %d)", core.FuncName(m), twin.Name(), len(cs))
+		return
+	}
+	c := cs[0]
+	args := c.Common().Args
+	// args[0] receiver, args[1] context, then m's params after its receiver
+	if len(args) != len(m.Params)+1 {
+		o.Fail(p.InstrPos(c), "%s passes %d arguments to %s, expected %d", core.FuncName(m), len(args), twin.Name(), len(m.Params)+1)
+		return
+	}
+	if pa, ok := core.Strip(core.Forward(args[0])).(*ssa.Parameter); !ok || pa != m.Params[0] {
+		o.Fail(p.InstrPos(c), "%s delegates on a different receiver", core.FuncName(m))
+	}
+	if cc, ok := args[1].(*ssa.Call); !ok || core.CalleeName(cc) != "context.Background" {
+		o.Fail(p.InstrPos(c), "%s does not pass context.Background()", core.FuncName(m))
+	}
+	for i := 1; i < len(m.Params); i++ {
+		a := core.Strip(core.Forward(args[i+1]))
+		if mc, ok := a.(*ssa.MakeClosure); ok {
+			// adapter closure (e.g. func(ctx, s) → fn(s)): must call the original parameter
+			fn := mc.Fn.(*ssa.Function)
+			if len(core.Instrs(fn, core.CallOfValue(core.IsFreeVar(m.Params[i].Name())))) == 0 {
+				o.Fail(p.InstrPos(c), "%s: adapter for parameter %s does not call it", core.FuncName(m), m.Params[i].Name())
+			}
+			continue
+		}
+		if pa, ok := a.(*ssa.Parameter); !ok || pa != m.Params[i] {
+			o.Fail(p.InstrPos(c), "%s passes %s where parameter %s belongs (arguments permuted or replaced)", core.FuncName(m), core.Describe(args[i+1]), m.Params[i].Name())
+		}
+	}
+	for _, ret := range core.Returns(m) {
+		for i := range ret.Results {
+			v := core.Result(ret, i)
+			cc, idx := core.ResultOf(v)
+			if cc == nil || ssa.Instruction(cc) != ssa.Instruction(c.(*ssa.Call)) || idx != i {
+				o.Fail(p.InstrPos(ret), "%s does not return result #%d of %s", core.FuncName(m), i, twin.Name())
+			}
+		}
+	}
 }
